@@ -69,9 +69,16 @@ def run(tier):
                 R.fail(dict(marker=s, env=e), f"validate={got}, reference={want} (parsed as {m})", MI.d35_matcher); break
         mreq.append(["meval", MI.tree_to_expr(s)] + eenc); midx.append(("tree", s, m, obs))
         mreq.append(["mstruct", MI.enc_marker(m)] + eenc); midx.append(("struct", s, m, obs))
+        mreq.append(["mparse", MI.tree_to_expr(s)] + eenc); midx.append(("parse", s, m, obs))
     for (kind, s, m, obs), res in zip(midx, M.many(mreq)):
         exp = [b(x) for x in obs]
-        if kind == "tree":
+        if kind == "parse":
+            if res[:1] != ["ok"] or res[2:] != exp:
+                R.disagree("truth of the model's own parse (compaction + simplifier) vs the parsed marker", dict(marker=s), res[:8], ["ok", str(m)] + exp[:6])
+            elif res[1] != str(m):
+                R.count("structural_drift_parse")
+                if len(R.notes) < 5: R.notes.append(f"parse({s}): model text {res[1]!r} implementation {str(m)!r}")
+        elif kind == "tree":
             if res != exp:
                 bad = [e for e, x, y in zip(envs, res, exp) if x != y][:2]
                 R.disagree("truth of the unsimplified tree vs validate of the parsed marker", dict(marker=s, env=bad), res[:8], exp[:8])
